@@ -28,20 +28,42 @@ def run(ctx):
     cov, sviol, ssamples = shm.run_sched(ctx, b, "C18", 8000 if q else 100000)
     ctx.log("sched: %d scenarios, odd-entry calls %d, max accesses %d" % (cov["scenarios"], cov["odd_entry_calls"], cov["max_accesses_per_call"]))
     viol += sviol
+    # the daemon as a separate, stalled (alive) process
+    sparts = shm.run_single(ctx, b, ["stallproc", "--seed", str(ctx.seed)], NPROC, 1800)
+    stall = {"evaluations": 0, "inconclusive_cases": 0, "cells": {}, "outcomes": {}}
+    viol += shm.crash_violations(sparts)
+    for p in sparts:
+        if p is None:
+            lost += 1
+            continue
+        if p.get("_crashed"):
+            continue
+        stall["evaluations"] += p["evaluations"]
+        stall["inconclusive_cases"] += p["inconclusive_cases"]
+        for key in ("cells", "outcomes"):
+            for k, v in p[key].items():
+                stall[key][k] = stall[key].get(k, 0) + v
+        viol += p["violations"]
+        samples += p["samples"][:1]
+    ctx.log("stallproc: %d cases, %d cells, outcomes %s, inconclusive %d" % (stall["evaluations"], len(stall["cells"]), stall["outcomes"], stall["inconclusive_cases"]))
     inconclusive = None
     if lost or cov["shards_lost"] or cov["inconclusive"]:
         inconclusive = "some runs did not finish (lost %d/%d, scenarios over the step budget %d)" % (lost, cov["shards_lost"], cov["inconclusive"])
     elif cap["capped_calls"] < 1 or cap["stuck_cases"] < 100 or cov["odd_entry_calls"] < 100:
         inconclusive = "monitors observed too little (capped calls %d, stuck cases %d, odd-entry calls %d)" % (cap["capped_calls"], cap["stuck_cases"], cov["odd_entry_calls"])
+    if not inconclusive and (stall["evaluations"] < 100 or stall["inconclusive_cases"] > stall["evaluations"] // 10):
+        inconclusive = "stalled-process engine observed too little (%d cases, %d inconclusive)" % (stall["evaluations"], stall["inconclusive_cases"])
     coverage = {
-        "evaluations": cap["evaluations"] + cov["scenarios"],
-        "distinct_nontrivial": cap["stuck_cases"] + cov["distinct_schedules"],
+        "evaluations": cap["evaluations"] + cov["scenarios"] + stall["evaluations"],
+        "distinct_nontrivial": cap["stuck_cases"] + cov["distinct_schedules"] + len(stall["cells"]),
         "rule": "c18cap: (a) an adversary completing 1 or 2 whole real updates each time the reader has copied the last word (drives the real retry loop to its cap) and one that gives up after 1000 retries; "
                 "(a2) adversaries mixing in-flight and completed updates at the re-check in fixed patterns; (a3) one update per retry from 160 start generations (quick: wrap neighbours + random; thorough: all 32767 even values); (b) all 144 pairs (reader at its j-th shared access, writer dead for ever at the k-th point of an update); (c) writer dead at each of its 12 points from start generations 6, 65534 and 1 (already odd), then the very first call of a client that attaches afterwards; oracle: shared accesses per snapshot() <= 5e7, no torn record, an answer once the writer is idle. "
+                "stallproc: the daemon is a separate process (hooks on) that stalls alive for ever at its k-th hook point of start-up, first and second update, for every k and 15 start states; a client in this process then opens and reads in a watched thread; a call that is not back is judged by what its thread does (/proc task state and system call: 40 consecutive samples not runnable inside one blocking call while the only other party is stalled = waiting for the daemon), the work meter bounds clock reads and sleeps per call; signals (150 us period) and errno values are hostile throughout. "
                 "sched: seeded scenarios with writers that die for ever; oracle also: a call entered at an odd generation makes <= 4 accesses and returns its cache. distinct = stuck pairs + distinct interleaving traces",
         "samples": samples[:6] + ssamples[:1],
         "max_accesses_per_call": max(mx, cov["max_accesses_per_call"]),
         "cap": cap,
+        "stalled_daemon_process": dict(stall, cells=len(stall["cells"])),
         "sched": cov,
     }
     finish(ctx, coverage, viol, inconclusive, assumptions=["work is counted in shared-memory accesses reported by the hooks, not in wall-clock time"])
